@@ -163,6 +163,13 @@ class Check:
             except OSError:
                 pass
         cmd = ["go", "build"]
+        if os.path.realpath(REPO) != "/repo":
+            # VERIF_REPO=<scratch worktree>: same harness, module replaced by that tree
+            alt = os.path.join(self.bdir, "go.alt.mod")
+            txt = open(os.path.join(HARNESS, "go.mod")).read().replace("=> /repo", "=> " + os.path.realpath(REPO))
+            open(alt, "w").write(txt)
+            shutil.copyfile(os.path.join(REPO, "go.sum"), os.path.join(self.bdir, "go.alt.sum"))
+            cmd += ["-modfile", alt]
         if tags:
             cmd += ["-tags", tags]
         if race:
